@@ -136,6 +136,20 @@ fn case(t: &mut Tape, info: &mut CaseInfo) -> Result<(), String> {
         if before.clone().mode_or_ignore(target) != before {
             return Err("Performance::mode_or_ignore changed an inconvertible calculator".into());
         }
+        // the same for a calculator that owns its map
+        let owned = Performance::new(map.clone()).mods(mods.clone());
+        let owned_before = owned.clone();
+        match owned.try_mode(target) {
+            Ok(_) => return Err("Performance::try_mode (owned map) succeeded although conversion is impossible".into()),
+            Err(back) => {
+                if back != owned_before {
+                    return Err("Performance::try_mode (owned map) Err(self) is not the unchanged calculator".into());
+                }
+            }
+        }
+        if owned_before.clone().mode_or_ignore(target) != owned_before {
+            return Err("Performance::mode_or_ignore changed an inconvertible calculator (owned map)".into());
+        }
         info.label("error-path");
         info.nontrivial = src_mode != GameMode::Osu || src_is_convert;
         info.set_key(&format!("{spec:?}{dspec:?}{target:?}{already_converted}"));
@@ -165,7 +179,11 @@ fn case(t: &mut Tape, info: &mut CaseInfo) -> Result<(), String> {
     same("GradualDifficulty::new_with_mode(&src) vs new(&explicit)", &g1, &g2)?;
     let g3: Vec<DifficultyAttributes> = explicit.gradual_difficulty(dg.clone()).collect();
     same("Beatmap::gradual_difficulty vs GradualDifficulty::new", &g3, &g2)?;
-    info.comparisons += 2;
+    let g4: Vec<DifficultyAttributes> = dg.clone().gradual_difficulty(&explicit).collect();
+    same("Difficulty::gradual_difficulty vs GradualDifficulty::new", &g4, &g2)?;
+    let g5 = super::common::mode_gradual_difficulty(&dg, &map, target)?;
+    same("Difficulty::gradual_difficulty_for_mode::<M>(&src) vs GradualDifficulty::new(&explicit)", &g5, &g2)?;
+    info.comparisons += 4;
 
     // gradual performance with a fixed stream of states
     let n_states = t.range(1, 5) as usize;
@@ -177,6 +195,24 @@ fn case(t: &mut Tape, info: &mut CaseInfo) -> Result<(), String> {
         let a: Option<PerformanceAttributes> = p1.nth(s.clone(), k);
         let b: Option<PerformanceAttributes> = p2.nth(s.clone(), k);
         same(&format!("GradualPerformance step {i}"), &a, &b)?;
+        info.comparisons += 1;
+    }
+    // the remaining constructors, walked with next / last: generic on the explicit map (three spellings) and
+    // the mode-specific calculator on the source map
+    let walk = |mut g: GradualPerformance| -> (usize, Vec<Option<PerformanceAttributes>>, usize) {
+        let before = g.len();
+        let out = states.iter().enumerate().map(|(i, s)| if i + 1 == states.len() { g.last(s.clone()) } else { g.next(s.clone()) }).collect();
+        (before, out, g.len())
+    };
+    let w0 = walk(GradualPerformance::new(dg.clone(), &explicit));
+    let w1 = walk(explicit.gradual_performance(dg.clone()));
+    let w2 = walk(dg.clone().gradual_performance(&explicit));
+    let w3 = super::common::mode_gradual_performance_walk(&dg, &map, target, &states)?;
+    for (name, w) in [("Beatmap::gradual_performance", &w1), ("Difficulty::gradual_performance", &w2), ("Difficulty::gradual_performance_for_mode::<M>(&src) with the mode-specific next/last", &w3)] {
+        if (w.0, w.2) != (w0.0, w0.2) {
+            return Err(format!("{name}: len() before/after the walk {:?} vs {:?} for GradualPerformance::new(&explicit)", (w.0, w.2), (w0.0, w0.2)));
+        }
+        same(&format!("{name} vs GradualPerformance::new(&explicit), next.. then last"), &w.1, &w0.1)?;
         info.comparisons += 1;
     }
     }
@@ -247,7 +283,7 @@ pub fn property() -> Property {
         id: "C07",
         subchecks: vec![SubCheck {
             name: "conversion-and-dispatch",
-            rule: "G-MAP of all four native modes (1/8 of osu maps pre-converted, 1/12 of the others with the public is_convert flag set by hand) x uniform target mode x mods incl. key mods/Random/HO/IN/MR in all representations x G-DIFF x score spec. Oracle: convert / convert_ref / convert_mut give == maps or the same error variant (failed convert_mut leaves the map unchanged); own mode => identity and Cow::Borrowed; Ok iff target==mode or un-converted osu; result has mode==target and is_convert; calculate_for_mode, strains_for_mode, GradualDifficulty::new_with_mode (drained), GradualPerformance::new_with_mode (stepped), Performance::try_mode / mode_or_ignore / <Mode>Performance::new(&src) all same-value-equal to the same call on the explicitly converted map; on impossible conversions every entry point refuses and try_mode returns the unchanged calculator. Non-trivial: osu source with >=3 objects incl. a slider and target != osu, or an error path from a non-osu/converted source.",
+            rule: "G-MAP of all four native modes (1/8 of osu maps pre-converted, 1/12 of the others with the public is_convert flag set by hand) x uniform target mode x mods incl. key mods/Random/HO/IN/MR in all representations x G-DIFF x score spec. Oracle: convert / convert_ref / convert_mut give == maps or the same error variant (failed convert_mut leaves the map unchanged); own mode => identity and Cow::Borrowed; Ok iff target==mode or un-converted osu; result has mode==target and is_convert; calculate_for_mode, strains_for_mode, GradualDifficulty::new_with_mode / Beatmap::gradual_difficulty / Difficulty::gradual_difficulty / gradual_difficulty_for_mode::<M> (drained), GradualPerformance::new_with_mode (stepped with nth) and Beatmap::gradual_performance / Difficulty::gradual_performance / gradual_performance_for_mode::<M> (mode-specific calculator; walked with next and last, len() compared), Performance::try_mode / mode_or_ignore / <Mode>Performance::new(&src) all same-value-equal to the same call on the explicitly converted map; on impossible conversions every entry point refuses and try_mode returns the unchanged calculator. Non-trivial: osu source with >=3 objects incl. a slider and target != osu, or an error path from a non-osu/converted source.",
             quick: 40_000,
             thorough: 150_000,
             tape_len: 1500,
